@@ -721,6 +721,19 @@ impl Interface {
             let mut neighbor_addr = None;
             let mut respond = |inner: &mut InterfaceInner, meta: PacketMeta, response: Packet| {
                 neighbor_addr = Some(response.ip_repr().dst_addr());
+
+                // The fragmentation buffer is shared. While the fragments of an earlier packet
+                // are still being sent, a packet that needs fragmenting as well has to stay in
+                // its socket, or it would overwrite the fragments that are still to go out.
+                #[cfg(feature = "proto-ipv4-fragmentation")]
+                if !self.fragmenter.finished()
+                    && matches!(response.ip_repr(), IpRepr::Ipv4(_))
+                    && response.ip_repr().buffer_len() > inner.caps.ip_mtu()
+                {
+                    net_debug!("failed to transmit IP: fragmentation buffer busy");
+                    return Err(EgressError::Exhausted);
+                }
+
                 let t = device.transmit(inner.now).ok_or_else(|| {
                     net_debug!("failed to transmit IP: device exhausted");
                     EgressError::Exhausted
